@@ -1,4 +1,5 @@
 import MindsVerif.Lemmas.OPMSql
+import MindsVerif.Lemmas.OPMCanon
 import MindsVerif.Gen.Prec_sqlite
 import MindsVerif.Gen.Prec_mysql
 import MindsVerif.Gen.Prec_mindsdb
@@ -46,6 +47,16 @@ theorem C03_mindsdb : C03_full Prec_mindsdb.P Prec_mindsdb.S Prec_mindsdb.F := C
 theorem phi3b_sqlite : conforms Prec_sqlite.spec Tables_sqlite.tables = true := by decide +kernel
 theorem phi3b_mysql : conforms Prec_mysql.spec Tables_mysql.tables = true := by decide +kernel
 theorem phi3b_mindsdb : conforms Prec_mindsdb.spec Tables_mindsdb.tables = true := by decide +kernel
+
+/-- "keeps user-written parentheses", and the expression layer of C01: for EVERY token list the
+machine accepts (any operators, any parentheses), printing the tree and parsing it again gives the
+same tree — for the precedence data of each dialect. -/
+def RoundTrip (P : Table) : Prop :=
+  ∀ (toks : List Tok) (e : Expr), parse P toks [] none = some e → parse P (print P e) [] none = some e
+
+theorem roundtrip_sqlite : RoundTrip Prec_sqlite.P := fun t e h => print_parse_roundtrip _ (by decide) t e h
+theorem roundtrip_mysql : RoundTrip Prec_mysql.P := fun t e h => print_parse_roundtrip _ (by decide) t e h
+theorem roundtrip_mindsdb : RoundTrip Prec_mindsdb.P := fun t e h => print_parse_roundtrip _ (by decide) t e h
 
 /-- every operator the property lists has a production in each dialect -/
 theorem ops_present : Prec_sqlite.missingOps = [] ∧ Prec_mysql.missingOps = [] ∧ Prec_mindsdb.missingOps = [] := by
